@@ -71,7 +71,7 @@ claim("C17",
 claim("C07",
   "wire-integer taint analysis over SSA with guarded-reachability sanitisers + recursive minimum-consumption summaries + call-graph panic reachability",
   "Decides the clause visible in the code's shape: no allocation size or loop bound comes from an integer read off the wire without a constant (or existing-capacity) upper bound, and none that went through a signed type reaches a panicking sink without a lower bound; loops bounded by a wire count must consume at least one byte per iteration (callee summaries computed from ReadN constant lengths). Plus: no explicit panic reachable from a decoder, checked arities of parallel slices in the signature node builders, unchecked assertions confined to confirmed sites.",
-  "Absence of implicit panics and hangs in general, and time/memory proportional to input, are not decided (need execution). The rule is interprocedural for allocation parameters and also decides that no two alternatives of an ordered choice of the signature / IDL grammars share a prefix with a non-terminal (exponential backtracking: D20, fixed). Known finding D8 (generated decoders allocate from the wire count, 16 sites) is listed in known_findings.txt.",
+  "Absence of implicit panics and hangs in general, and time/memory proportional to input, are not decided (need execution). The rule is interprocedural for allocation parameters and also decides that no two alternatives of an ordered choice of the signature / IDL grammars share a prefix with a non-terminal (exponential backtracking: D20, fixed). D8 (generated decoders allocated from the wire count, 16 sites) was first a known finding and is fixed in /repo (6a14ca9).",
   "DESIGN.md §3 C07")
 
 claim("C08",
